@@ -368,6 +368,13 @@ impl MempoolInner {
         current_account_balances: &HashMap<IbcPrefixed, u128>,
         transaction_costs: HashMap<IbcPrefixed, u128>,
     ) -> Result<InsertionStatus, InsertionError> {
+        // A transaction that is already tracked (in pending or parked) must not be added a second
+        // time: the pending container does not know about parked transactions, so a parked
+        // transaction that now fits would otherwise end up in both.
+        if self.contained_txs.contains(checked_tx.id()) {
+            return Err(InsertionError::AlreadyPresent);
+        }
+
         let ttx_to_insert = TimemarkedTransaction::new(checked_tx, transaction_costs);
         let tx_id_to_insert = *ttx_to_insert.id();
 
